@@ -7,7 +7,6 @@ import (
 	"testing"
 
 	"github.com/WuKongIM/WuKongIM/pkg/zzverif/ev"
-	"github.com/WuKongIM/WuKongIM/pkg/zzverif/mc"
 )
 
 func TestVerifC01(t *testing.T) {
@@ -20,13 +19,10 @@ func TestVerifC01(t *testing.T) {
 		oC01: true, reportKF: true,
 	}
 	st := &vwStats{}
-	depth, devs := vwDebugBounds(ev.Pick(r, 5, 6), ev.Pick(r, 2, 2))
-	res := mc.Run(r, mc.System{
-		Name: "replication-world/C01", New: func() mc.Instance { return newVW(o, st) },
-		MaxDepth: depth, MaxDeviations: devs,
-		Bounds: vwBounds(o),
-		Note:   "N=3 voters, Q=2, one channel; initial state: node 1 installed under authority (1,1,1) on empty logs; |down| <= N-Q",
-	})
+	note := "N=3 voters, Q=2, one channel; initial state: node 1 installed under authority (1,1,1) on empty logs; |down| <= N-Q; a path is cut (PruneAfter) at a transition that matches KF-C01-1"
+	res := vwRun(r, "replication-world/C01/deep", o, st, ev.Pick(r, 4, 5), ev.Pick(r, 1, 2), note)
+	res2 := vwRun(r, "replication-world/C01/faulty", o, st, ev.Pick(r, 3, 6), ev.Pick(r, 2, 1), note)
+	res.States += res2.States
 	vwAssumptions(r)
 	vwCounters(r, st)
 	if r.Replay() != nil {
